@@ -486,6 +486,44 @@ def _narrowed_to_simple(fn, name, node):
     return False
 
 
+def _single_curve_allowed(ctx, fn, ctx_cls=None, depth=0):
+    """an allow entry covers the private helpers it delegates to: a private method f is allowed when every call that can
+    reach it *on an instance of the class it belongs to* comes from an allowed function -- `self._f(..)` in a method g
+    counts when g is a method such an instance has (g's class is among its bases) and `_f` looked up from that
+    instance is f (the override, not the base definition)"""
+    if fn.qname in SINGLE_CURVE_OK:
+        return SINGLE_CURVE_OK[fn.qname]
+    if depth > 4 or not fn.name.startswith("_") or fn.name.endswith("__") or not fn.cls:
+        return None
+    M = ctx.model
+    ctx_cls = ctx_cls or fn.cls
+    line = [ctx_cls] + M.mro(ctx_cls)[1:]
+    first = next((M.methods[k][fn.name] for k in line if fn.name in M.methods.get(k, {})), None)
+    if first is None or first.qname != fn.qname:
+        return None
+    reasons = []
+    for g in M.funcs.values():
+        if g.qname == fn.qname:
+            continue
+        selfn = g.params[0] if g.params and g.cls else None
+        for c in ast.walk(g.node):
+            if isinstance(c, ast.Call) and isinstance(c.func, ast.Attribute) and c.func.attr == fn.name:
+                recv = c.func.value
+                if isinstance(recv, ast.Name) and recv.id == selfn and g.cls in line:
+                    r = _single_curve_allowed(ctx, g, ctx_cls, depth + 1)
+                    if r is None:
+                        return None
+                    reasons.append(r)
+                elif isinstance(recv, ast.Name) and recv.id in M.classes and recv.id in ([ctx_cls] + M.subclasses(ctx_cls) + line):
+                    r = _single_curve_allowed(ctx, g, ctx_cls, depth + 1)
+                    if r is None:
+                        return None
+                    reasons.append(r)
+                elif not isinstance(recv, ast.Name) or (recv.id != selfn and recv.id not in M.classes):
+                    return None                     # called on some other object: not covered
+    return reasons[0] if reasons else None
+
+
 def single_curve_projection(ctx, out):
     """no function treats one boundary curve of a possibly multi-curve shape as if it were the whole boundary"""
     n = 0
@@ -505,8 +543,8 @@ def single_curve_projection(ctx, out):
                     continue          # receiver of unknown static type: not decided here
                 if narrowed or all(c == "SimpleShape" for c in classes):
                     out.ok(q, f"`{U(node)}` on a SimpleShape (one curve)", where=fn.where(node), nontrivial=False)
-                elif q in SINGLE_CURVE_OK:
-                    out.ok(q, f"`{U(node)}`: {SINGLE_CURVE_OK[q]}", where=fn.where(node))
+                elif _single_curve_allowed(ctx, fn) is not None:
+                    out.ok(q, f"`{U(node)}`: {_single_curve_allowed(ctx, fn)}", where=fn.where(node))
                 else:
                     out.bad(q, "one boundary curve of a shape that may have several is used for the whole shape",
                             where=fn.where(node), detail=f"`{U(node)}` with receiver type {t}: holes / further components "
